@@ -29,6 +29,7 @@ RULE = (
 ASSUMPTIONS = [
     "|H| bound = sum_i (|Omega_i|/2 + |delta_i|) + sum_{i<j} |U_ij| from the sequence parameters (no dense matrix)",
     "energy drift allowed: emu-sv 50 n_steps tol |H|; emu-mps n_steps N 20 precision |H| + 2e-6 |H| (two-site TDVP conserves energy up to truncation)",
+    "emu-mps reports explicitly normalised states: norm tolerance 1e-9 whatever the truncation",
     "when max_bond_dim binds only the norm statement is required",
 ]
 CHUNK = 1
@@ -48,7 +49,7 @@ def bounds(tier, seed):
         "dmm": [False, True],
         "dt": [10, 4],
         "sv": {"krylov_tolerance": [1e-10, 1e-6]},
-        "mps": {"precision": [1e-5, 1e-7], "max_bond_dim": ["unbounded", 4]},
+        "mps": {"precision": [1e-5, 1e-7, "1e-2 (norm only)"], "max_bond_dim": ["unbounded", 4, "8 on chain5 (cannot bind for the state)", "2 on ladder8 (norm only)"]},
     }
 
 
@@ -61,9 +62,15 @@ def cases(tier, seed):
             if n <= 12:
                 for tol in (1e-10, 1e-6):
                     yield {"backend": "sv", "reg": reg, "win": win, "dmm": dmm, "dt": dt, "tol": tol}
-            for prec in (1e-5, 1e-7):
-                for cap in (None, 4):
+            for prec in (1e-5, 1e-7, 1e-2):
+                for cap in (None, 4, 8, 2):
                     if cap and (n < 5 or dt != 10):
+                        continue
+                    if cap == 8 and n != 5:
+                        continue  # chain5: the state's bond dimension is at most 4, a cap of 8 can never bind for the state
+                    if cap == 2 and n != 8:
+                        continue
+                    if prec == 1e-2 and (cap or dt != 10 or n < 5 or n > 8):
                         continue
                     if n >= 12 and (prec != 1e-5 or dt != 10):
                         continue
@@ -123,9 +130,9 @@ def run_case(case):
         tol_norm = nsteps * 10 * case["tol"] + 1e-10
         tol_e = 50 * nsteps * case["tol"] * Hb + 1e-9 * Hb
     else:
-        tol_norm = nsteps * n * 4 * case["precision"] + 1e-9
+        tol_norm = 1e-9  # emu-mps reports the state explicitly normalised, whatever the truncation discarded
         tol_e = nsteps * n * 20 * case["precision"] * Hb + 2e-6 * Hb
-    capped = case.get("cap") is not None and case["cap"] < 2 ** (n // 2)
+    capped = (case.get("cap") is not None and case["cap"] < 2 ** (n // 2)) or case.get("precision") == 1e-2
     if with_state:
         for t in ev:
             st = runner.get_at(res, "state", t)
